@@ -2724,10 +2724,23 @@ func (m *Machine) detectQueueDuplicates(mutationType MutationType,
 		return false
 	}
 	// check if this mutation is already scheduled
-	found, _, _ := m.IsQueued(mutationType, states, true, true, 0, isCheck,
+	found, idx, _ := m.IsQueued(mutationType, states, true, true, 0, isCheck,
 		PositionAny)
+	if !found {
+		return false
+	}
 
-	return found
+	// not a duplicate if any other mutation is scheduled after it (eg the
+	// counter mutation), as the result would differ
+	m.queueMx.RLock()
+	defer m.queueMx.RUnlock()
+	for i := int(idx) + 1; i < len(m.queue); i++ {
+		if !m.queue[i].IsCheck && m.queue[i].Type != mutationEval {
+			return false
+		}
+	}
+
+	return true
 }
 
 // Transition returns the current transition, if any.
